@@ -20,6 +20,7 @@ import TboxModel.C14.ProofsRing
 import TboxModel.C14.ProofsServer
 import TboxModel.C14.ProofsProto
 import TboxModel.C14.ProofsTime
+import TboxModel.C14.ProofsIds
 namespace Tbox.C14
 
 /-! ## (1) header-stream framing -/
@@ -641,9 +642,11 @@ theorem C14_world_callback_once (w : World) (onB : Bool) (h : RInv (w.peer onB))
 /-- **C14_world_callback_exactly_once.** … and a request of peer a for which no response with its id is
 delivered while a sees `N − 1` of its ticks (the other peer answers never, or late, or its answers are
 lost) is completed exactly once, by the timeout of the `N`-th tick — later deliveries of late or
-duplicated answers included (`more`). -/
+duplicated answers included (`more`).  (`hd`, `hw`: the `request()` call itself is legal — the object is
+not cleaned up and `id_alloc_ < INT_MAX`.) -/
 theorem C14_world_callback_exactly_once (w : World) (hr : w.a.ring ≠ [])
     (hf : ∀ y ∈ w.a.ring.flatten, y ≤ w.a.idAlloc) (hinv : RInv w.a) (hd : w.a.dead = false)
+    (hw : w.a.idAlloc < kIntMax)
     (hq : QuietFor w.a (w.a.idAlloc + 1)) (c m : Nat) (ops more : List WOp)
     (hno : NoResponseFor (w.a.idAlloc + 1) (peerOps (w.step (.api false (.request c m))).1 false ops))
     (hnc : NoCleanupOps (peerOps (w.step (.api false (.request c m))).1 false ops))
@@ -663,7 +666,9 @@ theorem C14_world_callback_exactly_once (w : World) (hr : w.a.ring ≠ [])
     simp only [peerOps, peerOp, happ, if_true, List.cons_append, List.nil_append]
   rw [hsplit]
   simp only [run]
-  have hg : step w.a (.request c m) = w.a.request c m := by simp [step, Rpc.guard, hd]
+  have hg : step w.a (.request c m) = w.a.request c m := by
+    have : ¬ kIntMax ≤ w.a.idAlloc := by omega
+    simp [step, Rpc.guardReq, hd, this]
   have ha : (w.step (.api false (.request c m))).1.a = (w.a.request c m).1 := by
     simp [World.step, World.apply, hg]
   rw [hg]
@@ -733,6 +738,216 @@ theorem C14_deadline_reached (s : Rpc) (hs : Prog.safe s.prog) (hr : s.ring ≠ 
     unfold Qb at hq
     omega
   · exact hg.2.2
+
+
+/-! ## (9) request ids at the C++ width (`int id_alloc_`, `id = ++id_alloc_`) -/
+
+/-- **C14_id_width.** In every state reachable from `initialize` by any program of scripts, any op
+sequence and any (test-only) setting of the counter within `int`: the counter is at most `INT_MAX`
+and every pending id lies in `[1, INT_MAX]` — the model's `Nat` ids *are* the C++ `int`s, nothing is
+narrowed — and id 0 (what an error response without an integer id is mapped to) is never pending.
+Below `INT_MAX` the C++ increment is exact and defined and the peer's `int` getter returns the id
+intact; at `INT_MAX` it is a signed overflow (`ub`), executed by g++ as the wrap to `INT_MIN`: that call
+is refused in the model (`Rpc.guardReq`) and never made by the harness. -/
+theorem C14_id_width (n : Nat) (p : Prog) (ops : List JOp) :
+    (let s := (runJ { Rpc.init n with prog := p } ops).1
+     s.idAlloc ≤ 2147483647 ∧ (∀ e ∈ s.pending, 1 ≤ e.1 ∧ e.1 ≤ 2147483647) ∧ pendingFind s.pending 0 = none) ∧
+    (∀ k : Nat, k < 2147483647 →
+      cppIncr (k : Int) = (((k + 1 : Nat) : Int), false) ∧ respIdG true ((k + 1 : Nat) : Int) = some ((k + 1 : Nat) : Int)) ∧
+    cppIncr 2147483647 = (-2147483648, true) := by
+  refine ⟨?_, ?_, by decide⟩
+  · have h := IdInv_runJ ops { Rpc.init n with prog := p } ⟨by simp [Rpc.init, kIntMax], by simp [Rpc.init]⟩
+    exact ⟨h.1, h.2, pendingFind_zero _ (fun e he => (h.2 e he).1)⟩
+  · intro k hk
+    constructor
+    · unfold cppIncr wrap32
+      refine Prod.ext ?_ (by simp; omega)
+      show ((k : Int) + 1 + 2147483648) % 4294967296 - 2147483648 = ((k + 1 : Nat) : Int)
+      omega
+    · unfold respIdG; simp; omega
+
+/-- **C14_callback_once_any_ids.** `C14_callback_once` for every allocation of ids: with the counter
+set arbitrarily between the ops (`jump`: forwards = requests completed in between, backwards = the
+counter has wrapped, ids are reused while still pending or still in the timeout ring) every
+completion callback still runs at most once, a callback that has run is not pending, and none runs
+that was never handed to `request`. -/
+theorem C14_callback_once_any_ids (s : Rpc) (h : RInv s) (ops : List JOp) (t : Nat) :
+    firedCount t (runJ s ops).2 ≤ 1 ∧
+    firedCount t (runJ s ops).2 + pendCount t (runJ s ops).1.pending ≤ 1 ∧
+    ((runJ s ops).1.nTag ≤ t → firedCount t (runJ s ops).2 = 0) ∧
+    RInv (runJ s ops).1 := by
+  have hd := Delta_runJ ops s
+  have h1 := hd.2 t
+  have h2 := h t
+  have hm := hd.1
+  refine ⟨?_, ?_, ?_, ?_⟩
+  · split at h1 <;> split at h2 <;> omega
+  · split at h1 <;> split at h2 <;> omega
+  · intro hge; split at h1 <;> split at h2 <;> omega
+  · intro u
+    have h1 := hd.2 u
+    have h2 := h u
+    split at h1 <;> split at h2 <;> split <;> omega
+
+/-- **C14_id_wrap_counterexample** (rpc.cpp as it is: `id = ++id_alloc_`, no check).  *Exactly once*
+does not survive the wrap of the counter: (1) the 2³¹-th request executes a signed overflow; as g++
+compiles it the ids go on from `INT_MIN` and the 2³²-th request gets id 0, which `sendRequest` writes
+without an `id` member — a notification, never answered; (2) an id reused while its first request is
+still pending replaces the callback: tag 0 is neither run nor pending any more — lost; (3) an id
+reused while its first (answered) use still sits in the ring is timed out by that stale entry after
+one tick instead of three. -/
+theorem C14_id_wrap_counterexample :
+    (cppIncr 2147483647 = (-2147483648, true) ∧ cppIncr (-1) = (0, false) ∧
+      ((mkRequest 0 "m" .null).lookup "id").isNone = true) ∧
+    (let r := runJ (Rpc.init 3) [.op (.request 0 0), .jump 0, .op (.request 0 0), .op (.response 1 0),
+                                 .op .tick, .op .tick, .op .tick, .op .tick]
+     r.2 = [.sent 1 0, .sent 1 0, .fired 1 0] ∧ r.1.pending = []) ∧
+    (runJ (Rpc.init 3) [.op (.request 0 0), .op (.response 1 0), .op .tick, .op .tick, .jump 0,
+                        .op (.request 0 0), .op .tick]).2
+      = [.sent 1 0, .fired 0 0, .sent 1 0, .fired 1 kRequestTimeout] := by decide
+
+/-! ## (10) `Proto::onRecvJson` on anything the peer may send; the `GetField` family -/
+
+/-- **C14_dispatch_batch.** An object is dispatched as one message; an array (a batch) is walked in
+order, nested arrays in place, each item as a message of its own; any other value is ignored. -/
+theorem C14_dispatch_batch (items : List J) (fields : List (String × J)) :
+    recvJson (.arr items) = items.flatMap recvJson ∧
+    recvJson (.obj fields) = recvJsonObj (.obj fields) ∧
+    recvJson .null = [] ∧ recvJson .float = [] ∧ (∀ b, recvJson (.bool b) = []) ∧
+    (∀ v, recvJson (.int v) = []) ∧ (∀ t, recvJson (.str t) = []) := by
+  refine ⟨?_, by simp [recvJson], by simp [recvJson], by simp [recvJson], by simp [recvJson], by simp [recvJson],
+    by simp [recvJson]⟩
+  rw [recvJson]
+  induction items with
+  | nil => simp [recvItems]
+  | cons x xs ih => rw [recvItems, ih]; simp
+
+/-- **C14_dispatch_ids.** Whatever the object contains — ids and error codes written as strings,
+floats, booleans, `null`, integers beyond `int`, missing — every id and error code handed to the
+callbacks is a C++ `int` obtained without narrowing; for a *result* it is the literal itself (a result
+whose id is not an `int` literal is dropped), for a request or an error a non-`int` id reads as 0. -/
+theorem C14_dispatch_ids (j : J) :
+    ∀ r ∈ recvJsonObj j,
+      match r with
+      | .request id _ _ => isInt32 id ∧ (id ≠ 0 → j.lookup "id" = some (.int id))
+      | .response id code _ => isInt32 id ∧ isInt32 code ∧ (id ≠ 0 → j.lookup "id" = some (.int id)) := by
+  have key : ∀ (k : String) (v : Int), j.getInt k = some v → isInt32 v ∧ j.lookup k = some (.int v) := by
+    intro k v h
+    unfold J.getInt at h
+    split at h
+    · rename_i w hw
+      unfold respIdG at h
+      simp only [if_true] at h
+      split at h
+      · simp only [Option.some.injEq] at h; subst h; exact ⟨by assumption, hw⟩
+      · simp at h
+    · simp at h
+  have key0 : ∀ (k : String), isInt32 ((j.getInt k).getD 0) ∧ ((j.getInt k).getD 0 ≠ 0 → j.lookup k = some (.int ((j.getInt k).getD 0))) := by
+    intro k
+    cases h : j.getInt k with
+    | none => simp [isInt32]
+    | some v => simp only [Option.getD_some]; exact ⟨(key k v h).1, fun _ => (key k v h).2⟩
+  intro r hr
+  unfold recvJsonObj at hr
+  split at hr
+  · simp at hr
+  · split at hr
+    · simp at hr
+    · split at hr
+      · split at hr
+        · simp at hr
+        · simp only [List.mem_singleton] at hr; subst hr; exact key0 "id"
+      · split at hr
+        · split at hr
+          · simp at hr
+          · rename_i id hid
+            simp only [List.mem_singleton] at hr; subst hr
+            exact ⟨(key _ _ hid).1, by decide, fun _ => (key _ _ hid).2⟩
+        · split at hr
+          · simp at hr
+          · split at hr
+            · simp at hr
+            · rename_i jerr _ code hcode
+              simp only [List.mem_singleton] at hr; subst hr
+              have hc : isInt32 code := by
+                unfold J.getInt at hcode
+                split at hcode
+                · unfold respIdG at hcode
+                  simp only [if_true] at hcode
+                  split at hcode
+                  · simp only [Option.some.injEq] at hcode; subst hcode; assumption
+                  · simp at hcode
+                · simp at hcode
+              exact ⟨(key0 "id").1, hc, (key0 "id").2⟩
+
+/-- **C14_response_id_total.** A response whose `id` is anything but an `int` literal — a string
+(JSON-RPC allows string ids), a float (`1.0`), `null`, a boolean, an integer beyond `int`, a structured
+value — completes nothing in any reachable state: as a result it is dropped by the dispatch, as an error
+it reads as id 0, which is never pending (`C14_id_width`). -/
+theorem C14_response_id_total (s : Rpc) (hi : IdInv s) (x : J) (hx : ∀ v, x = .int v → ¬ isInt32 v)
+    (code : Int) (res : J) :
+    recvJsonObj (.obj [("jsonrpc", .str "2.0"), ("id", x), ("result", res)]) = [] ∧
+    (∀ r ∈ recvJsonObj (.obj [("jsonrpc", .str "2.0"), ("id", x), ("error", .obj [("code", .int code)])]),
+      ∃ c, r = .response 0 c .null) ∧
+    s.complete 0 code = (s, []) := by
+  have hg : (J.obj [("jsonrpc", .str "2.0"), ("id", x), ("result", res)]).getInt "id" = none := by
+    cases x <;> simp [J.getInt, J.lookup, List.find?]
+    rename_i v
+    have := hx v rfl
+    unfold respIdG isInt32 at *; simp [this]
+  have hg2 : (J.obj [("jsonrpc", .str "2.0"), ("id", x), ("error", .obj [("code", .int code)])]).getInt "id" = none := by
+    cases x <;> simp [J.getInt, J.lookup, List.find?]
+    rename_i v
+    have := hx v rfl
+    unfold respIdG isInt32 at *; simp [this]
+  refine ⟨?_, ?_, ?_⟩
+  · unfold recvJsonObj
+    simp [J.getStr, J.lookup, List.find?, hg]
+  · intro r hr
+    unfold recvJsonObj at hr
+    simp only [hg2] at hr
+    simp [J.getStr, J.lookup, List.find?] at hr
+    split at hr
+    · simp at hr
+    · simp at hr; exact ⟨_, hr⟩
+  · exact (C14_callback_ignored s 0 code).1 (pendingFind_zero _ (fun e he => (hi.2 e he).1))
+
+/-- **C14_getfield_untouched.** `util::json::GetField(js, key, out)` for each of the five output types:
+it returns `true` exactly when `js` is an object that has `key` with a value of the wanted type (for
+`int`: an integer inside the range of `int`), and then `out` is that value; otherwise it returns `false`
+and `out` still holds what it held before.  (`unsigned int`: no range check in the code — values from 2³²
+are truncated, `C14_getfield_unsigned_truncates`.) -/
+theorem C14_getfield_untouched (k : GKind) (j : J) (key : String) (old : GVal) :
+    ((getField k j key old).1 = false → (getField k j key old).2 = old) ∧
+    ((getField k j key old).1 = true ↔ ∃ x v, j.lookup key = some x ∧ J.get k x = some v ∧ (getField k j key old).2 = v) ∧
+    (∀ v, getField .i j key old = (true, .i v) → isInt32 v ∧ j.lookup key = some (.int v)) := by
+  refine ⟨?_, ?_, ?_⟩
+  · unfold getField; split <;> simp
+  · unfold getField
+    cases h : j.lookup key with
+    | none => simp
+    | some x => cases h2 : J.get k x <;> simp [h2]
+  · intro v h
+    unfold getField at h
+    cases hl : j.lookup key with
+    | none => simp [hl] at h
+    | some x =>
+      simp only [hl, Option.bind_some, J.get] at h
+      cases x <;> simp [J.getI] at h
+      rename_i w
+      by_cases hr : isInt32 w
+      · have h1 : respIdG true w = some w := respId_int32 w hr
+        by_cases h2 : inI64U64 w = true
+        · simp [h1, h2] at h; subst h; exact ⟨hr, rfl⟩
+        · simp [h2] at h
+      · have h1 : respIdG true w = none := by unfold respIdG isInt32 at *; simp [hr]
+        simp [h1] at h
+
+/-- **C14_getfield_unsigned_truncates** (json.cpp as it is; not on any jsonrpc path): the `unsigned int`
+getter accepts 2³² + 1 and stores 1. -/
+theorem C14_getfield_unsigned_truncates :
+    getField .u (.obj [("n", .int 4294967297)]) "n" (.u 7) = (true, .u 1) ∧
+    getField .i (.obj [("n", .int 4294967297)]) "n" (.i 7) = (false, .i 7) := by decide
 
 /-! ### non-vacuity / concrete runs (evaluation, not part of the unbounded claims) -/
 
